@@ -118,6 +118,8 @@ def involved(it, op):
                     add(d["link"])
         else:
             add(it.pick("array", op["da"], (lambda a: a.info.get("dims")) if o == "dim_link" else None))
+    elif o in ("frame_units", "frame_add_col", "frame_add_rows"):
+        add(it.pick("frame", op["t"]))
     elif o in ("set_pos", "clear_ext"):
         add(it.pick("mtag", op["t"]))
     elif o == "sec_link":
@@ -142,6 +144,9 @@ def must_target(it, op):
         e = it.pick("array", op["da"])
         return (e.id, "array.append_%s_dimension" % ("range_dimension_using_self" if op["kind"] == "self" else op["kind"])) \
             if e is not None else None
+    if o == "frame_units":
+        e = it.pick("frame", op["t"])
+        return (e.id, "frame.units") if e is not None else None
     if o == "set_pos":
         e = it.pick("mtag", op["t"])
         if e is None or it.pick("array", op["da"], lambda a: a.parent is e.parent and a.info["dtype"] != "str") is None:
@@ -322,7 +327,7 @@ def _opname(op):
     return op["op"]
 
 
-ENABLED = (ops.CREATE + ops.SETTERS * 3 + ops.LINKS + ops.DATA + ops.DELETE +
+ENABLED = (ops.CREATE + ops.SETTERS * 3 + ops.LINKS + ops.DATA + ops.FRAME + ["frame_grow"] * 3 + ops.DELETE +
            ["force_ts"] * 4 + ["reopen"] * 3 + ["auto_ts"] * 3 + ["overwrite"] * 3)
 
 TIMES = st.one_of(st.sampled_from([0, 0, 0, 1, 59, 86399, 86400, 951782400, 951868799, 1078099200, 1582934400, 2147483647,
@@ -345,7 +350,7 @@ def case_strategy(draw, max_ops, sweep=False):
     if sweep:
         prog = draw(ops.attr_sweep(reopen=True))
         extra = draw(ops.program(["set_pos", "clear_ext", "set_featdata", "mk_dim_sampled", "mk_dim_range", "mk_dim_set",
-                                  "mk_dim_self", "auto_ts"], min_size=4, max_size=14))
+                                  "mk_dim_self", "auto_ts", "frame_grow", "frame_grow"], min_size=4, max_size=14))
         pos = draw(st.integers(0, len(prog)))
         prog = prog[:pos] + extra + prog[pos:]
         rich = True
